@@ -280,6 +280,10 @@ class CFG(object):
             const = bool(expr.value)
         elif isinstance(expr, ast.Name) and self.p is not None:
             const = self._version_const(expr.id)
+        elif isinstance(expr, ast.Call) and isinstance(expr.func, ast.Name) and expr.func.id == "hasattr" and len(expr.args) == 2 and not expr.keywords \
+                and all(isinstance(a, ast.Constant) for a in expr.args) and isinstance(expr.args[1].value, str) and isinstance(expr.args[0].value, (str, bytes, int, float)):
+            # hasattr(<literal>, "<name>") is a constant: it asks the literal's builtin type (e.g. hasattr("stream", "seekable") is False)
+            const = hasattr(expr.args[0].value, expr.args[1].value)
         if const is not False:
             self._edge(c.id, tn.id)
         if const is not True:
